@@ -8,3 +8,11 @@ claim("C01", "DESIGN.md §4 C01",
 claim("C03", "DESIGN.md §4 C03",
       "After every transition of every bounded history (small-amount menu, a 1-vs-1e30 magnitude pairing, slashes 1/3, 0.5, 0.99, take-rate steps over 0/1/3 intervals, full drains and re-staking) the share ledger is recomputed from the raw primary records and compared exactly: per validator/denom sum of delegation shares vs recorded total (including totals left without delegations), per asset sum of validator shares vs recorded total, non-negativity, reset at zero stake; the module's registered invariants are run as well.",
       "Trusted: world construction and state identity as for C01. The registered validator-shares invariant is vacuous on this tree (GetAllAllianceValidatorInfo's deferred Close overwrites the decode error), so the independent recomputation is the deciding oracle.")
+
+claim("C02", "DESIGN.md §4 C02",
+      "Every bounded history of undelegations (several per block per delegator across validators and denoms, repeated from one validator), slashes and block steps on the 10-second time lattice (block times before, exactly at and after completion) is run on the real keeper under two unbonding periods plus a mid-history parameter change; after every transition the delegators' bank deltas, the stored queue and its per-validator index are compared exactly with a list-based reference (entry paid once, at the first EndBlocker strictly after completion, amount minus only the slashes of its own validator).",
+      "Trusted: world construction/state identity as C01. No reward inflow and take rate 0 in this scenario so that delegator balances in asset denoms have a closed form.")
+
+claim("C07", "DESIGN.md §4 C07",
+      "All packings of up to 3 (thorough 4) undelegations/redelegations of one delegator (plus a second delegator) into blocks, followed by up to two block steps and a slash of each validator by 1/3, 0.5 or 1, are executed; on the slash transition every pending unbonding entry, the fee-collector and custody deltas are compared exactly with the reference, untouched positions must keep their shares, and destination positions of pending redelegations are compared with g*value - f*amount. Two genuine defects are reported as KNOWN-FINDING through quantitative mechanism classifiers; anything else is a violation.",
+      "Trusted: as C01. Value tolerance 1 + 1e-17*T + one unit per pending entry. The classifiers accept only failures whose share movements equal the code's burn mechanism for exactly floor(f*amount) (or f*merged-record total).")
